@@ -80,7 +80,9 @@ Coarse == { [rho |-> 1, ox |-> 0, oy |-> 0, rc |-> FR, cc |-> FC],
             [rho |-> 4, ox |-> 4, oy |-> 4, rc |-> 2, cc |-> 2],
             [rho |-> 2, ox |-> 40, oy |-> 40, rc |-> 2, cc |-> 2] }      \* no overlap
 PointSets == { << <<2, 2>> >>, << <<2, 2>>, <<6, 2>> >>, << <<4, 4>>, <<4, 4>> >>, << <<0, 0>>, <<8, 8>>, <<0, 8>> >>,
-               << <<-10, 3>>, <<30, 3>> >>, << <<6, 6>>, <<2, 6>>, <<6, 2>> >> }
+               << <<-10, 3>>, <<30, 3>> >>, << <<6, 6>>, <<2, 6>>, <<6, 2>> >>,
+               \* clustered points within half a cell of one centre, the later ones closer
+               << <<3, 2>>, <<2, 2>> >>, << <<7, 7>>, <<6, 7>>, <<6, 6>> >>, << <<5, 9>>, <<1, 1>>, <<6, 10>>, <<2, 1>> >> }
 IntersectCorrect == Done => \A g \in Coarse :
     LET m == IntersectModel(FR, FC, SetToSeq(Catch), g)
     IN /\ {m[1][k] : k \in 1..Len(m[1])} = CellsDef(FR, FC, Catch, g)
